@@ -333,7 +333,7 @@ static void DecodeJCN(Word Index) {
 
             AdrInt = EvalStrIntExpressionWithFlags(&ArgStr[2], UInt12, &OK, &Flags);
             if (OK) {
-                if (!mSymbolQuestionable(Flags)
+                if (!mFirstPassUnknownOrQuestionable(Flags)
                     && (Hi(EProgCounter() + 2) != Hi(AdrInt))) {
                     WrError(ErrNum_JmpDistTooBig);
                 } else {
